@@ -284,7 +284,7 @@ def check(ctx):
                     dict(fill[3]).get("value") == ("const", 0) or (fill[2] and fill[2][0] == ("const", 0)))
                 mask = sets[0][2][1][0]
                 pre = not any(x[0] == "mut" and x[2] == "update" for x in ir.walk(mask))
-                anyna = "isna().any(axis=1)" in ir.show(mask, maxdepth=6) and "results_" in ir.show(mask, maxdepth=8)
+                anyna = "isnull().any(axis=1)" in ir.show(mask, maxdepth=6) and "results_" in ir.show(mask, maxdepth=8)
                 zero_ok = okf and sets[0][3] == ("const", 0) and pre and anyna
                 zdetail = ("zero: missing results filled with 0 and percent_expected_vote set to 0 on exactly those rows" if zero_ok else
                            f"zero policy: fill={okf}, pev value={ir.show(sets[0][3])}, mask computed before the fill={pre}, mask=any-missing={anyna}")
@@ -304,7 +304,7 @@ def check(ctx):
                     v = x[3]
                     filled = v[0] == "call" and v[1][0] == "attr" and v[1][2] == "fillna" and (
                         dict(v[3]).get("value") == ("const", 0) or (v[2] and v[2][0] == ("const", 0)))
-                    same_rows = "isna().any(axis=1)" in ir.show(x[2][1][0], maxdepth=6)
+                    same_rows = "isnull().any(axis=1)" in ir.show(x[2][1][0], maxdepth=6)
                     if covers and filled and same_rows:
                         okder = True
                         ddetail = "zero: every results_* column and turnout_factor of the rows with missing results is filled with 0"
@@ -317,13 +317,13 @@ def _margin_weights_rule(ctx, b):
 
     def is_est_call(t):  # globals()[<estimand>](frame, BASELINE_PREFIX)
         return (t[0] == "call" and t[1][0] == "sub" and t[1][1][0] == "call" and t[1][1][1] == ("global", "globals")
-                and any(ir.show(a).endswith("BASELINE_PREFIX") for a in t[2]))
+                and any((a == ("const", "baseline_") or ir.show(a).endswith("BASELINE_PREFIX")) for a in t[2]))
 
     def has_call(t):
         return any(is_est_call(x) for x in ir.walk(t))
 
     resets = [x for x in ir.walk(ret) if x[0] == "call" and x[1][0] == "attr" and x[1][2] == "add_weights"
-              and any(ir.show(a).endswith("BASELINE_PREFIX") for a in x[2])]
+              and any((a == ("const", "baseline_") or ir.show(a).endswith("BASELINE_PREFIX")) for a in x[2])]
     ncalls = len({x for x in ir.walk(ret) if is_est_call(x)})
     ctx.sites("C09.R4.margin-weights", ncalls, 1, "estimand-function call on the baseline in add_estimand_baselines")
     if not resets:
@@ -343,7 +343,7 @@ def _margin_weights_rule(ctx, b):
             return rs.T if c[1] == "==" else rs.F  # the estimand is margin
         if c[0] == "cmp" and c[1] in ("in", "notin", "not in") and ("const", "margin") in (c[2], c[3]):
             return rs.T if c[1] == "in" else rs.F
-        if any(x in ("dem", "gop") for x in strs) and "columns" in ir.show(c, maxdepth=8):
+        if any(x in ("dem", "gop") or x.endswith(("_dem", "_gop")) for x in strs) and "columns" in ir.show(c, maxdepth=8):
             return rs.T  # the inputs of the margin (baseline dem and gop) are columns
         name = ir.show(c, maxdepth=5)
         atoms[name] = c
